@@ -50,7 +50,9 @@ class MExpander(Expander):
         if txt is not None and txt in env:
             if isinstance(env[txt], PoisonV):
                 raise Unsupported(env[txt].why)
-            return env[txt]
+            if not (txt in self.atoms and not isinstance(env[txt], M)):
+                return env[txt]
+            # a declared matrix atom bound, in a constructor, to the (scalar-symbol) argument it was given: the atom stands
         if txt is not None and txt in self.atoms:
             name, rank, sym = self.atoms[txt]
             return M.atom(name, rank, sym)
